@@ -638,14 +638,14 @@ func Families(tier string) []Family {
 				c := Cfg{Mode: mode}
 				c.Nodes = []NodeCfg{rootNode(0, false), cmdNode("log", 1, 0, false, true), cmdNode("show", 1, 0, false, true), cmdNode("sub", 2, 0, false, true)}
 				c.Nodes[0].Fn = true
-				c.Nodes[0].Sugg = Ts("arg1", "sarg")
+				c.Nodes[0].Sugg = Ts("arg1", "sarg", "a%d")
 				c.Nodes[1].Sugg = Ts("sub-log", "lower")
 				profile := opt("string", "profile", 1)
-				profile.Sugg = Ts("dev", "production", "staging")
+				profile.Sugg = Ts("dev", "production", "staging", "d%v")
 				level := opt("string", "level", 1, "l")
 				level.Valid = Ts("debug", "info")
 				if variant == 1 {
-					level.SuggFn = Ts("dynamic", "debug2")
+					level.SuggFn = Ts("dynamic", "debug2", "100%")
 				}
 				c.Opts = []OptCfg{opt("bool", "flag", 1), opt("bool", "fleg", 1), profile, level, opt("bool", "lo", 2), opt("string", "s", 3), opt("bool", "f", 3)}
 				if variant == 1 {
@@ -796,6 +796,19 @@ func Families(tier string) []Family {
 						Pres: [][]Tok{Ts("c1"), Ts("c2", "x")}})
 				}
 			}
+		}
+		// names an ordering by numeric value cannot tell apart still come out in one fixed order
+		{
+			c := Cfg{}
+			c.Nodes = []NodeCfg{rootNode(0, false), cmdNode("c1", 1, 0, false, true)}
+			c.Nodes[0].Fn = true
+			r1 := opt("string", "step1", 1)
+			r1.Req = true
+			r2 := opt("string", "step01", 1)
+			r2.Req = true
+			c.Opts = []OptCfg{r1, r2, opt("bool", "id7", 1), opt("bool", "id007", 1), opt("bool", "id07", 2)}
+			c = WithHelp(c, "help")
+			f.Defs = append(f.Defs, Def{Cfg: c, Tokens: Ts("--help", "help", "c1", "--step1=x", "--step01=y", "--id", "x"), L: 3, Disp: true})
 		}
 		fams = append(fams, f)
 	}
